@@ -406,39 +406,49 @@ where
         + Ord
         + FromUniformBytes<64>,
 {
-    instances
+    // The transcript must absorb the instances in the same order as the
+    // verifier (`parse_trace`): first the commitments of the committed
+    // instance columns of every proof, then, for every proof, the length and
+    // the values of each non-committed instance column.
+    let instance_values = instances
         .iter()
-        .map(|instance| -> Result<InstanceSingle<F>, Error> {
-            let instance_values = instance
+        .map(|instance| -> Result<Vec<Polynomial<F, LagrangeCoeff>>, Error> {
+            instance
                 .iter()
-                .enumerate()
-                .map(|(i, values)| {
-                    // Committed instances go first.
-                    let is_committed_instance = i < nb_committed_instances;
+                .map(|values| {
                     let mut poly = pk.vk.domain.empty_lagrange();
                     assert_eq!(poly.len(), pk.vk.domain.n as usize);
                     if values.len() > (poly.len() - (pk.vk.cs.blinding_factors() + 1)) {
                         return Err(Error::InstanceTooLarge);
                     }
-                    if !is_committed_instance {
-                        transcript.common(&F::from_u128(values.len() as u128))?;
-                    }
-
                     for (poly_eval, value) in poly.iter_mut().zip(values.iter()) {
-                        if !is_committed_instance {
-                            transcript.common(value)?;
-                        }
                         *poly_eval = *value;
                     }
-
-                    if is_committed_instance {
-                        transcript.common(&CS::commit_lagrange(params, &poly))?;
-                    }
-
                     Ok(poly)
                 })
-                .collect::<Result<Vec<_>, _>>()?;
+                .collect::<Result<Vec<_>, _>>()
+        })
+        .collect::<Result<Vec<_>, _>>()?;
 
+    // Committed instances go first.
+    for instance_values in instance_values.iter() {
+        for poly in instance_values.iter().take(nb_committed_instances) {
+            transcript.common(&CS::commit_lagrange(params, poly))?;
+        }
+    }
+
+    for instance in instances.iter() {
+        for values in instance.iter().skip(nb_committed_instances) {
+            transcript.common(&F::from_u128(values.len() as u128))?;
+            for value in values.iter() {
+                transcript.common(value)?;
+            }
+        }
+    }
+
+    Ok(instance_values
+        .into_iter()
+        .map(|instance_values| {
             let instance_polys: Vec<_> = instance_values
                 .iter()
                 .map(|poly| {
@@ -447,12 +457,12 @@ where
                 })
                 .collect();
 
-            Ok(InstanceSingle {
+            InstanceSingle {
                 instance_values,
                 instance_polys,
-            })
+            }
         })
-        .collect::<Result<Vec<_>, _>>()
+        .collect())
 }
 
 #[allow(clippy::type_complexity)]
